@@ -30,12 +30,29 @@ const (
 	tyU8
 	tyBool
 	tyErr
+	tyBytes
+	tyPtr
 )
 
 // functions translated, in dependency order (callees first is not required)
 var goSrcFuncs = []string{
 	"Iter.moveToEnd", "Iter.calcNext", "Iter.Type", "Iter.Advance", "Iter.AdvanceInto", "Iter.AdvanceIter",
 	"Iter.PeekNext", "Iter.PeekNextTag",
+}
+
+type goBlock struct {
+	fn, lean, from string
+	skip         []string
+	tapes        map[string]string
+	frees        map[string]gty
+	locals       map[string]gty
+	rtys         []gty
+}
+
+var goSrcBlocks = []goBlock{
+	{fn: "Serializer.Deserialize", lean: "goDeserialize_rebuild", from: "var off int", skip: []string{"sWG", "stringsErr"},
+		tapes: map[string]string{"dst.Tape": "dst"}, frees: map[string]gty{"s.tagsBuf": tyBytes, "s.valuesBuf": tyBytes},
+		locals: map[string]gty{"dst": tyPtr}, rtys: []gty{tyPtr, tyErr}},
 }
 
 type gsTr struct {
@@ -45,6 +62,9 @@ type gsTr struct {
 	iters  map[string]bool   // identifiers that are *Iter (receiver and parameters)
 	locals map[string]gty    // local variables and non-Iter parameters
 	fields map[string]gty    // Iter field types
+	tapes  map[string]string // other tape slices by source text (`dst.Tape`) → base name
+	frees  map[string]gty    // free variables of a translated block by source text (`s.tagsBuf`)
+	rtys   []gty             // result types when translating a block of a function whose results are not all scalars
 }
 
 func gsDie(n ast.Node, format string, a ...interface{}) {
@@ -162,6 +182,9 @@ func (t *gsTr) constType(name string) gty {
 
 // isTape reports whether e is `<iter>.tape.Tape` and returns the iterator's name.
 func (t *gsTr) isTape(e ast.Expr) (string, bool) {
+	if base, ok := t.tapes[nows(src(e))]; ok {
+		return base, true
+	}
 	s1, ok := e.(*ast.SelectorExpr)
 	if !ok || s1.Sel.Name != "Tape" {
 		return "", false
@@ -198,9 +221,15 @@ func (t *gsTr) expr(e ast.Expr, want gty) (string, gty) {
 		case "false":
 			return "(.bool false)", tyBool
 		case "nil":
+			if want == tyPtr {
+				return "(.bool false /- nil -/)", tyPtr
+			}
 			return "(.bool false /- nil -/)", tyErr
 		}
 		if ty, ok := t.locals[x.Name]; ok {
+			if ty == tyPtr {
+				return fmt.Sprintf("(.bool true /- %s -/)", x.Name), tyPtr
+			}
 			return fmt.Sprintf("(.v %s)", strconv.Quote(x.Name)), ty
 		}
 		if s, ty, ok := t.constExpr(x); ok {
@@ -211,6 +240,9 @@ func (t *gsTr) expr(e ast.Expr, want gty) (string, gty) {
 		}
 		gsDie(e, "identifier")
 	case *ast.SelectorExpr:
+		if ty, ok := t.frees[nows(src(e))]; ok {
+			return fmt.Sprintf("(.v %s)", strconv.Quote(nows(src(e)))), ty
+		}
 		if id, ok := x.X.(*ast.Ident); ok && t.iters[id.Name] {
 			ty, ok := t.fields[x.Sel.Name]
 			if !ok || ty == tyUnk {
@@ -219,10 +251,32 @@ func (t *gsTr) expr(e ast.Expr, want gty) (string, gty) {
 			return fmt.Sprintf("(.v %s)", strconv.Quote(id.Name+"."+x.Sel.Name)), ty
 		}
 		gsDie(e, "selector")
+	case *ast.SliceExpr:
+		b, bty := t.expr(x.X, tyUnk)
+		if bty != tyBytes || x.Slice3 {
+			gsDie(e, "slice expression")
+		}
+		// a missing bound is printed as what Go defines it to be: 0 and len(operand)
+		lo, hi := "(.int 0)", "(.lenB "+b+")"
+		if x.Low != nil {
+			l, lty := t.expr(x.Low, tyInt)
+			if lty != tyInt {
+				gsDie(e, "slice bound type")
+			}
+			lo = l
+		}
+		if x.High != nil {
+			h, hty := t.expr(x.High, tyInt)
+			if hty != tyInt {
+				gsDie(e, "slice bound type")
+			}
+			hi = h
+		}
+		return fmt.Sprintf("(.sliceB %s %s %s)", b, lo, hi), tyBytes
 	case *ast.IndexExpr:
 		if base, ok := t.isTape(x.X); ok {
 			idx, ity := t.expr(x.Index, tyInt)
-			if ity != tyInt {
+			if ity != tyInt && ity != tyU64 {
 				gsDie(e, "tape index type")
 			}
 			return fmt.Sprintf("(.tapeAt %s %s)", strconv.Quote(base), idx), tyU64
@@ -241,6 +295,9 @@ func (t *gsTr) expr(e ast.Expr, want gty) (string, gty) {
 				if base, ok := t.isTape(x.Args[0]); ok {
 					return fmt.Sprintf("(.lenTape %s)", strconv.Quote(base)), tyInt
 				}
+				if a, aty := t.expr(x.Args[0], tyUnk); aty == tyBytes {
+					return fmt.Sprintf("(.lenB %s)", a), tyInt
+				}
 				gsDie(e, "len of")
 			}
 			if ty := tyOfTypeExpr(id); ty == tyInt || ty == tyU64 || ty == tyU8 {
@@ -250,6 +307,13 @@ func (t *gsTr) expr(e ast.Expr, want gty) (string, gty) {
 				}
 				return fmt.Sprintf("(.conv %s %s)", tyName(ty), a), ty
 			}
+		}
+		if nows(src(x.Fun)) == "binary.LittleEndian.Uint64" && len(x.Args) == 1 {
+			a, aty := t.expr(x.Args[0], tyUnk)
+			if aty != tyBytes {
+				gsDie(e, "Uint64 operand")
+			}
+			return fmt.Sprintf("(.le64 %s)", a), tyU64
 		}
 		if sel, ok := x.Fun.(*ast.SelectorExpr); ok {
 			if pk, ok := sel.X.(*ast.Ident); ok && ((pk.Name == "errors" && sel.Sel.Name == "New") || (pk.Name == "fmt" && sel.Sel.Name == "Errorf")) {
@@ -439,8 +503,12 @@ func (t *gsTr) stmt(s ast.Stmt, ind string) string {
 			if !ok {
 				gsDie(s, "define target")
 			}
-			r, ty := t.expr(x.Rhs[0], tyUnk)
-			if ty != tyInt && ty != tyU64 && ty != tyU8 && ty != tyBool {
+			dw := tyUnk
+			if isUntypedConst(t, x.Rhs[0]) {
+				dw = tyInt // the default type of an untyped integer constant
+			}
+			r, ty := t.expr(x.Rhs[0], dw)
+			if ty != tyInt && ty != tyU64 && ty != tyU8 && ty != tyBool && ty != tyBytes {
 				gsDie(s, "type of defined variable")
 			}
 			if old, ok := t.locals[id.Name]; ok && old != ty {
@@ -480,7 +548,7 @@ func (t *gsTr) stmt(s ast.Stmt, ind string) string {
 				if base, ok := t.isTape(ix.X); ok {
 					idx, ity := t.expr(ix.Index, tyInt)
 					e, ety := t.expr(x.Rhs[0], tyU64)
-					if ity != tyInt || ety != tyU64 {
+					if (ity != tyInt && ity != tyU64) || ety != tyU64 {
 						gsDie(s, "tape store types")
 					}
 					return fmt.Sprintf(".tapeSet %s %s %s", strconv.Quote(base), idx, e)
@@ -574,9 +642,53 @@ func (t *gsTr) stmt(s ast.Stmt, ind string) string {
 			cases = append(cases, fmt.Sprintf("([%s], %s)", strings.Join(labels, ", "), body))
 		}
 		return fmt.Sprintf(".switch %s [\n%s    %s]\n%s    %s", tag, ind, strings.Join(cases, ",\n"+ind+"    "), ind, dflt)
+	case *ast.DeclStmt:
+		gd, ok := x.Decl.(*ast.GenDecl)
+		if !ok || gd.Tok != token.VAR || len(gd.Specs) != 1 {
+			gsDie(s, "declaration")
+		}
+		vs := gd.Specs[0].(*ast.ValueSpec)
+		if len(vs.Names) != 1 || len(vs.Values) != 0 || vs.Type == nil {
+			gsDie(s, "declaration shape")
+		}
+		ty := tyOfTypeExpr(vs.Type)
+		zero := map[gty]string{tyInt: "(.int 0)", tyU64: "(.u64 0)", tyU8: "(.u8 0)", tyBool: "(.bool false)"}[ty]
+		if zero == "" {
+			gsDie(s, "declared type")
+		}
+		t.locals[vs.Names[0].Name] = ty
+		return fmt.Sprintf(".assign %s %s", strconv.Quote(vs.Names[0].Name), zero)
+	case *ast.RangeStmt:
+		// for _, v := range <bytes>
+		if x.Tok != token.DEFINE || x.Value == nil {
+			gsDie(s, "range shape")
+		}
+		if k, ok := x.Key.(*ast.Ident); !ok || k.Name != "_" {
+			gsDie(s, "range key")
+		}
+		v, ok := x.Value.(*ast.Ident)
+		if !ok {
+			gsDie(s, "range value")
+		}
+		e, ety := t.expr(x.X, tyUnk)
+		if ety != tyBytes {
+			gsDie(s, "range operand")
+		}
+		t.locals[v.Name] = tyU8
+		return fmt.Sprintf(".rangeB %s %s %s", strconv.Quote(v.Name), e, t.block(x.Body.List, ind))
 	case *ast.ForStmt:
 		if x.Init != nil || x.Post != nil {
-			gsDie(s, "for with init/post")
+			if x.Init == nil || x.Post == nil || x.Cond == nil {
+				gsDie(s, "for clause shape")
+			}
+			ini := t.stmt(x.Init, ind+"  ")
+			c, ty := t.expr(x.Cond, tyBool)
+			if ty != tyBool {
+				gsDie(s, "loop condition type")
+			}
+			post := t.stmt(x.Post, ind+"  ")
+			// `continue` would have to run the post statement: the interpreter does, nothing to check here
+			return fmt.Sprintf(".forc [%s] %s [%s] %s", ini, c, post, t.block(x.Body.List, ind))
 		}
 		body := t.block(x.Body.List, ind)
 		if x.Cond == nil {
@@ -602,7 +714,9 @@ func (t *gsTr) stmt(s ast.Stmt, ind string) string {
 		var es []string
 		fd := t.p.funcs[t.fn]
 		var rtys []gty
-		if fd.Type.Results != nil {
+		if t.rtys != nil {
+			rtys = t.rtys
+		} else if fd.Type.Results != nil {
 			for _, f := range fd.Type.Results.List {
 				n := len(f.Names)
 				if n == 0 {
@@ -674,6 +788,17 @@ func (t *gsTr) stmt(s ast.Stmt, ind string) string {
 	return ""
 }
 
+// stmtText: the statement's source on one line, comment lines dropped
+func stmtText(st ast.Stmt) string {
+	var keep []string
+	for _, l := range strings.Split(src(st), "\n") {
+		if t := strings.TrimSpace(l); t != "" && !strings.HasPrefix(t, "//") {
+			keep = append(keep, t)
+		}
+	}
+	return strings.Join(strings.Fields(strings.Join(keep, " ")), " ")
+}
+
 func leanDefName(fn string) string {
 	return "go" + strings.ReplaceAll(fn, ".", "_")
 }
@@ -718,6 +843,56 @@ func genGoSrc(p *pkgInfo, out string) {
 		pos := fset.Position(fd.Pos())
 		fmt.Fprintf(&b, "/-- `%s` — %s:%d -/\ndef %s : FunDef := { recv := %s, params := %s, body := %s }\n\n",
 			fn, filepath.Base(pos.Filename), pos.Line, leanDefName(fn), strconv.Quote(t.recv), leanStrList(params), t.block(fd.Body.List, ""))
+	}
+	// blocks of larger functions: the statements from the first one starting with `from` to the end of the function,
+	// without those that mention one of `skip` (waits on goroutines that belong to the part modelled by contract)
+	for _, bs := range goSrcBlocks {
+		fd, ok := p.funcs[bs.fn]
+		if !ok {
+			die("gosrc: function %s not found", bs.fn)
+		}
+		t := &gsTr{p: p, fn: bs.fn, iters: map[string]bool{}, locals: map[string]gty{}, tapes: bs.tapes, frees: bs.frees, rtys: bs.rtys}
+		t.iterFieldTypes()
+		for n, ty := range bs.locals {
+			t.locals[n] = ty
+		}
+		var list []ast.Stmt
+		var skipped []string
+		started := false
+		for _, st := range fd.Body.List {
+			txt := stmtText(st)
+			if !started {
+				if !strings.HasPrefix(txt, bs.from) {
+					continue
+				}
+				started = true
+			}
+			skip := false
+			for _, k := range bs.skip {
+				if strings.Contains(txt, k) {
+					skip = true
+				}
+			}
+			if skip {
+				skipped = append(skipped, txt)
+				continue
+			}
+			list = append(list, st)
+		}
+		if !started {
+			var heads []string
+			for _, st := range fd.Body.List {
+				txt := strings.Join(strings.Fields(src(st)), " ")
+				if len(txt) > 30 {
+					txt = txt[:30]
+				}
+				heads = append(heads, txt)
+			}
+			die("gosrc: %s: no statement starts with %q (statements: %s)", bs.fn, bs.from, strings.Join(heads, " | "))
+		}
+		pos := fset.Position(list[0].Pos())
+		fmt.Fprintf(&b, "/-- `%s`, from `%s` to the end — %s:%d. Not translated (goroutine joins, modelled by contract): %s -/\ndef %s : FunDef := { recv := \"\", params := [], body := %s }\n\n",
+			bs.fn, bs.from, filepath.Base(pos.Filename), pos.Line, strings.ReplaceAll(strings.Join(skipped, " | "), "-/", "- /"), bs.lean, t.block(list, ""))
 	}
 	sort.Strings(names)
 	b.WriteString("/-- the translated functions by name -/\ndef goFuns (n : String) : Option FunDef :=\n")
